@@ -34,6 +34,7 @@ type Analysis struct {
 	EventArgs       func(st *State, desc string, args []*Expr) string // optional argument rendering for call events
 	StoreHook       func(st *State, addr, val *Expr, in *ssa.Store)   // optional observer of every store (also in inlined helpers)
 	AfterFlow       func(from, to *ssa.BasicBlock, st *State)         // optional: strengthen the state entering a block (loop-head assumptions of a rule)
+	pendingClosure  *Expr                                             // closure term of the dynamic call being inlined
 	InlineClosures  bool                                              // analyse directly called closures in place (their events become the caller's)
 	Unroll          int64                                             // trip-count limit for unrolling counted loops (default 8)
 	ForceInline     map[string]bool                                   // known functions analysed in caller context by this analysis only
@@ -314,7 +315,7 @@ func (a *Analysis) step(st *State, fr *frame, in ssa.Instruction) {
 		// a closure that is only ever called directly runs at its call sites
 		// (analysed in place, or its captured cells forgotten there); any other
 		// closure that assigns a captured variable may run during any call
-		if !onlyCalledDirectly(x) {
+		if !onlyCalledDirectly(x) && a.P.enteredOnlyThroughHelper(fn) == nil {
 			for i, b := range x.Bindings {
 				if al, ok := b.(*ssa.Alloc); ok && cellMutatedBy(fn, i, 0) {
 					st.shared[a.exprOf(st, fr, al).Key] = true
@@ -1736,6 +1737,21 @@ func (a *Analysis) transferBlock(b *ssa.BasicBlock, st0 *State, emit func(to *ss
 		var next []*State
 		for _, st := range states {
 			if c, ok := in.(*ssa.Call); ok {
+				// a closure the enclosing helper received as an argument: known
+				// exactly in this state (the term carries its captured cells)
+				if _, viaParam := c.Call.Value.(*ssa.Parameter); viaParam && !c.Call.IsInvoke() {
+					if ce := a.exprOf(st, nil, c.Call.Value); ce != nil && ce.Op == "closure" {
+						if callee := a.P.Funcs[ce.S]; callee != nil && a.closureTermInlinable(callee) {
+							a.pendingClosure = ce
+							outs, ok := a.inlineMulti(st, c, callee)
+							a.pendingClosure = nil
+							if ok {
+								next = append(next, outs...)
+								continue
+							}
+						}
+					}
+				}
 				if callee := a.P.staticLocalCallee(c); callee != nil && a.shouldInlineMulti(c, callee) {
 					if outs, ok := a.inlineMulti(st, c, callee); ok {
 						next = append(next, outs...)
@@ -1761,6 +1777,27 @@ func (a *Analysis) transferBlock(b *ssa.BasicBlock, st0 *State, emit func(to *ss
 			states = []*State{m}
 		}
 	}
+}
+
+// closureTermInlinable: shape limits for a closure analysed where a helper
+// calls it through a parameter.
+func (a *Analysis) closureTermInlinable(callee *ssa.Function) bool {
+	if callee.Parent() == nil || len(callee.Blocks) == 0 || len(callee.Blocks) > 60 || len(a.stack) >= maxHelperDepth+1 {
+		return false
+	}
+	for _, f := range a.stack {
+		if f == callee {
+			return false
+		}
+	}
+	ok := true
+	ownInstrs(callee, func(in ssa.Instruction) {
+		switch in.(type) {
+		case *ssa.Go, *ssa.Defer, *ssa.RunDefers:
+			ok = false
+		}
+	})
+	return ok
 }
 
 // shouldInlineMulti: the callee is a local function the rule sets do not know
@@ -1854,6 +1891,13 @@ func (a *Analysis) inlineMulti(st *State, c *ssa.Call, callee *ssa.Function) ([]
 		for i, fv := range callee.FreeVars {
 			if i < len(mc.Bindings) {
 				nf.params[fv] = a.exprOf(st, nil, mc.Bindings[i])
+			}
+		}
+	}
+	if ce := a.pendingClosure; ce != nil {
+		for i, fv := range callee.FreeVars {
+			if i < len(ce.Args) {
+				nf.params[fv] = ce.Args[i]
 			}
 		}
 	}
